@@ -5,6 +5,8 @@ import (
 	"go/token"
 	"math/rand"
 	"sort"
+	"unicode"
+	"unicode/utf8"
 
 	"verifharness/hist"
 )
@@ -98,6 +100,8 @@ func (c05) Generate(r *rand.Rand, t string) []*Case {
 			Tags: []string{fmt.Sprintf("elem-len=%d", len([]rune(e)))}})
 	}
 
+	out = append(out, c05UnicodeStream(r, t)...)
+
 	// multisets of paths competing for one base name
 	n := tier(t, 2000, 300000)
 	for i := 0; i < n; i++ {
@@ -146,6 +150,219 @@ func (c05) Generate(r *rand.Rand, t string) []*Case {
 		h = append(h, hist.Op{Kind: "noformat", F: 0, Flag: r.Intn(2) == 0}, hist.Op{Kind: "render", F: 0}, hist.Op{Kind: "imports", F: 0})
 		out = append(out, &Case{Hist: h, Stream: "collisions", NonTrivial: true, Meta: map[string]interface{}{"rc": rc},
 			Tags: []string{fmt.Sprintf("k=%d", k/5*5)}})
+	}
+	return out
+}
+
+// ---- the alphabet of the last path element --------------------------------------------
+//
+// Stream "unicode-path-elements": the last element of an import path holds runes outside
+// ASCII, of EVERY general category of the installed unicode tables (letters of every case,
+// marks, decimal digits Nd, the other numbers Nl / No - which unicode.IsNumber accepts but Go
+// identifiers do not -, punctuation, symbols, separators, controls, format and private-use
+// characters, unassigned code points) and byte sequences that are not UTF-8 at all (lone
+// continuation bytes, truncated sequences, overlong forms, encoded surrogates, values above
+// U+10FFFF).  Each such piece is placed as the whole element, as its first rune, in the
+// middle, at the end, directly before / after an ASCII digit, doubled, and next to a piece
+// of another category; alone, next to a path whose element is the ASCII remainder (so that
+// the two compete for one name), with and without PackagePrefix.
+//
+// The name jennifer guesses keeps ASCII letters and digits only (strings.ToLower, then
+// [^a-z0-9] removed); U+0130 and U+212A are the only runes whose lower case is ASCII (checked
+// over all of Unicode with the installed tables) and they are exemplars here.  The oracle is
+// the one of every C05 stream: the names of the import block are identifiers, not
+// predeclared, pairwise distinct, and every reference resolves to its own path.
+
+// c05Exemplars are fixed pieces (the rest is sampled from the category tables).
+var c05Exemplars = []struct{ tag, s string }{
+	{"Ll", "\u00e9"}, {"Ll", "\u0436"}, {"Lo", "\u4e16"}, {"Lu", "\u0416"}, {"Lu", "\u00c9"}, {"Lt", "\u01c5"}, {"Lm", "\u02b0"},
+	{"Nd", "\u0663"}, {"Nd", "\uff11"}, {"Nd", "\U0001d7d8"}, {"No", "\u00b2"}, {"No", "\u00bd"}, {"No", "\u2460"}, {"Nl", "\u2167"}, {"Nl", "\u2177"}, {"Nl", "\u3007"},
+	{"Mn", "\u0301"}, {"Mc", "\u0903"}, {"Me", "\u20dd"}, {"Sc", "\u20ac"}, {"So", "\u2122"}, {"Sm", "\u00d7"}, {"Sk", "\u00a8"},
+	{"Pc", "\u203f"}, {"Pd", "\u2014"}, {"Po", "\u00b7"}, {"Ps", "\u300c"}, {"Zs", "\u00a0"}, {"Zl", "\u2028"}, {"Cf", "\u200b"}, {"Cf", "\ufeff"},
+	{"Cc", "\u0085"}, {"Co", "\ue000"}, {"Cn", "\u0378"}, {"Cn", "\uffff"}, {"Cn", "\U0010ffff"}, {"So", "\ufffd"},
+	// lower case is ASCII (i, k); upper case / fold is ASCII (long s -> S, dotless i -> I, Kelvin); sharp s
+	{"Lu-lower-ascii", "\u0130"}, {"Lu-lower-ascii", "\u212a"}, {"Ll-upper-ascii", "\u017f"}, {"Ll-upper-ascii", "\u0131"}, {"Lu", "\u1e9e"}, {"Lu", "\u212b"}, {"Mn", "\u0345"},
+	// not UTF-8
+	{"invalid-utf8", "\xff"}, {"invalid-utf8", "\x80"}, {"invalid-utf8", "\xbf"}, {"invalid-utf8", "\xc3"}, {"invalid-utf8", "\xc0\xaf"}, {"invalid-utf8", "\xe0\x80\xaf"},
+	{"invalid-utf8", "\xed\xa0\x80"}, {"invalid-utf8", "\xf4\x90\x80\x80"}, {"invalid-utf8", "\xf8\x88\x80\x80\x80"}, {"invalid-utf8", "\xe2\x84"}, {"invalid-utf8", "\xc4"},
+	{"invalid-utf8", "\xe2\x84\xaa\xaa"}, {"invalid-utf8", "\xc4\xc4\xb0"}, {"invalid-utf8", "\xe2\xc4\xb0"}, {"invalid-utf8", "\xb0\xc4"},
+}
+
+var c05CatRunes = map[string][]rune{}
+
+// c05Category lists the runes of one general category ("Cn": code points in no table).
+func c05Category(name string) []rune {
+	if l, ok := c05CatRunes[name]; ok {
+		return l
+	}
+	var out []rune
+	if name == "Cn" {
+		for r := rune(0x80); r <= unicode.MaxRune; r++ {
+			if r >= 0xd800 && r <= 0xdfff {
+				continue
+			}
+			if !unicode.In(r, unicode.L, unicode.M, unicode.N, unicode.P, unicode.S, unicode.Z, unicode.C) {
+				out = append(out, r)
+			}
+		}
+	} else {
+		tab := unicode.Categories[name]
+		for _, r16 := range tab.R16 {
+			for c := rune(r16.Lo); c <= rune(r16.Hi); c += rune(r16.Stride) {
+				out = append(out, c)
+			}
+		}
+		for _, r32 := range tab.R32 {
+			for c := rune(r32.Lo); c <= rune(r32.Hi); c += rune(r32.Stride) {
+				out = append(out, c)
+			}
+		}
+	}
+	var keep []rune
+	for _, c := range out {
+		if c >= 0x80 && utf8.ValidRune(c) {
+			keep = append(keep, c)
+		}
+	}
+	c05CatRunes[name] = keep
+	return keep
+}
+
+// c05Categories: the two-letter general categories of the installed tables (Cs cannot be
+// encoded: surrogates appear as invalid byte sequences) and Cn.
+func c05Categories() []string {
+	var out []string
+	for k := range unicode.Categories {
+		if len(k) == 2 && k != "Cs" {
+			out = append(out, k)
+		}
+	}
+	out = append(out, "Cn")
+	sort.Strings(out)
+	return out
+}
+
+// c05Place puts piece x at position pos of an element; other is a piece of another category.
+func c05Place(pos int, x, other string) (elem, tag string) {
+	switch pos {
+	case 0:
+		return x, "whole"
+	case 1:
+		return x + "ab", "first"
+	case 2:
+		return "a" + x + "b", "middle"
+	case 3:
+		return "ab" + x, "last"
+	case 4:
+		return x + "9ab", "before-digit" // symbol-then-digit shapes: the digit run is dropped after the rune is
+	case 5:
+		return "9" + x + "ab", "after-digit"
+	case 6:
+		return x + x + "Ab" + x, "repeated"
+	case 7:
+		return x + other + "ab", "two-categories"
+	case 8:
+		return "a" + other + x, "two-categories"
+	default:
+		return x + "9", "only-digits-left" // nothing (or only digits) is left: "pkg"
+	}
+}
+
+const c05Positions = 10
+
+func c05UnicodeCase(r *rand.Rand, i int, cat, x, other string, pos int) *Case {
+	elem, ptag := c05Place(pos, x, other)
+	paths := []string{"h.io/" + elem}
+	refs := []int{0}
+	switch i % 4 {
+	case 1: // the same element under another host
+		paths = append(paths, "g.io/x/"+elem)
+		refs = []int{0, 1, 0}
+	case 2: // the ASCII remainder as an element of its own (ab, 9ab, pkg): competes for the guessed name
+		paths = append(paths, "g.io/ab", "g.io/x/9ab", "f.io/pkg")
+		refs = []int{1, 0, 2, 3}
+		if i%8 == 2 {
+			refs = []int{0, 3, 2, 1}
+		}
+	case 3: // trailing slash
+		paths[0] += "/"
+	}
+	setup := hist.History{{Kind: "newfile", F: 0, A: "p"}}
+	prefix := i%5 == 0
+	if prefix {
+		setup = append(setup, hist.Op{Kind: "prefix", F: 0, A: "pkg"})
+	}
+	rc, h := BuildRefCase(r, paths, setup, "", refs, nil)
+	h = append(h, hist.Op{Kind: "noformat", F: 0, Flag: i%3 == 0}, hist.Op{Kind: "render", F: 0}, hist.Op{Kind: "imports", F: 0})
+	tags := []string{"cat=" + cat, "pos=" + ptag, fmt.Sprintf("paths=%d", len(paths)), fmt.Sprintf("prefix=%v", prefix)}
+	if !utf8.ValidString(elem) {
+		tags = append(tags, "elem-not-utf8")
+	}
+	return &Case{Hist: h, Stream: "unicode-path-elements", NonTrivial: true, Meta: map[string]interface{}{"rc": rc}, Tags: tags}
+}
+
+func c05UnicodeStream(r *rand.Rand, t string) []*Case {
+	var out []*Case
+	cats := c05Categories()
+	i := 0
+	add := func(cat, x string, positions int) {
+		// a piece of another category for the mixed positions
+		oc := cats[r.Intn(len(cats))]
+		ol := c05Category(oc)
+		other := string(ol[r.Intn(len(ol))])
+		if r.Intn(4) == 0 {
+			other = c05Exemplars[r.Intn(len(c05Exemplars))].s
+		}
+		if positions >= c05Positions {
+			for pos := 0; pos < c05Positions; pos++ {
+				out = append(out, c05UnicodeCase(r, i, cat, x, other, pos))
+				i++
+			}
+			return
+		}
+		for k := 0; k < positions; k++ {
+			out = append(out, c05UnicodeCase(r, i, cat, x, other, r.Intn(c05Positions)))
+			i++
+		}
+	}
+	// every exemplar at every position
+	for _, e := range c05Exemplars {
+		add(e.tag, e.s, c05Positions)
+	}
+	// sampled runes of every category: quick 6 runes x 3 positions, thorough 200 runes (or the
+	// whole category) x every position; the number categories completely in the thorough tier
+	for _, cat := range cats {
+		l := c05Category(cat)
+		if len(l) == 0 {
+			continue
+		}
+		n, positions := tier(t, 6, 200), tier(t, 3, c05Positions)
+		whole := t == "thorough" && (cat[0] == 'N' || len(l) <= n)
+		if whole {
+			for _, c := range l {
+				add(cat, string(c), 2)
+			}
+			continue
+		}
+		for k := 0; k < n; k++ {
+			add(cat, string(l[r.Intn(len(l))]), positions)
+		}
+	}
+	// random byte strings (mostly not UTF-8) and random code points of the whole range
+	for k := tier(t, 60, 20000); k > 0; k-- {
+		if k%2 == 0 {
+			b := make([]byte, 1+r.Intn(4))
+			for j := range b {
+				b[j] = byte(0x80 + r.Intn(0x80))
+			}
+			add("random-bytes", string(b), 1)
+		} else {
+			c := rune(0x80 + r.Intn(unicode.MaxRune-0x80))
+			if c >= 0xd800 && c <= 0xdfff {
+				c = 0xfffd
+			}
+			add("random-rune", string(c), 1)
+		}
 	}
 	return out
 }
